@@ -63,7 +63,7 @@ pub fn world() -> World {
             (_, Tier::Quick) => 150_000,
             (_, Tier::Thorough) => 5_000_000,
         },
-        features: &[],
+        features: &["terminal-stops-reading"],
     }
 }
 
@@ -90,6 +90,8 @@ enum Ev {
     Signal(i32, bool),
     /// emulator stops draining until the given time
     Stall(u64),
+    /// emulator stops reading for good (XOFF, a hung terminal, a stopped pager at the other end)
+    Hang,
     /// peer hangs up
     Hangup,
     /// tty starts failing with EIO
@@ -163,6 +165,8 @@ struct Kernel {
     drain_chunk: usize,
     drain_latency: u64,
     stalled_until: u64,
+    /// the emulator has stopped reading for good
+    hung: bool,
     reply_latency: u64,
     vt: VtState,
     modes: Modes,
@@ -229,7 +233,8 @@ impl Kernel {
     fn tick(&mut self) {
         // every syscall costs a little (tape chosen) time so that actor events interleave at arbitrary points
         self.steps += 1;
-        let cost = self.src.draw(4) as u64 * 5 * US;
+        // (never zero: a loop that waits for the clock to pass a deadline must terminate)
+        let cost = self.src.draw(4) as u64 * 5 * US + 1;
         self.now += cost;
         verif_clock::set(self.now);
     }
@@ -248,7 +253,7 @@ impl Kernel {
     }
 
     fn ensure_drain(&mut self) {
-        if !self.drain_scheduled && !self.out_buf.is_empty() {
+        if !self.drain_scheduled && !self.out_buf.is_empty() && !self.hung {
             self.drain_scheduled = true;
             let wait = self.drain_latency.max(self.stalled_until.saturating_sub(self.now));
             self.schedule(wait, Ev::Drain);
@@ -444,6 +449,9 @@ impl Kernel {
         match ev {
             Ev::Drain => {
                 self.drain_scheduled = false;
+                if self.hung {
+                    return;
+                }
                 if self.now < self.stalled_until {
                     self.ensure_drain();
                     return;
@@ -514,6 +522,14 @@ impl Kernel {
                 self.stalled_until = self.stalled_until.max(until);
                 self.src.fault("emulator-stall");
                 self.src.sig_str("stall");
+            }
+            Ev::Hang => {
+                if self.disposing {
+                    self.trouble_in_dispose = true;
+                }
+                self.hung = true;
+                self.src.fault("emulator-stops-reading-for-ever");
+                self.src.sig_str("hang");
             }
             Ev::Hangup => {
                 if self.disposing {
@@ -799,10 +815,11 @@ fn drain_to_boundary(app: &mut App, kernel: &K) -> bool {
                 let k = kernel.borrow();
                 let idle = k.events.is_empty() && k.in_queue.is_empty();
                 let queue_empty = app.term.as_ref().unwrap().frames_pending() == 0;
-                if idle && (queue_empty || k.eio || k.hup || k.now < k.stalled_until) {
-                    return queue_empty && !k.eio && !k.hup;
+                if idle && (queue_empty || k.eio || k.hup || k.hung || k.now < k.stalled_until) {
+                    // (bytes a hung emulator will never read are still in flight)
+                    return queue_empty && !k.eio && !k.hup && !(k.hung && !k.out_buf.is_empty());
                 }
-                if idle && !queue_empty && k.out_buf.is_empty() && k.now >= k.stalled_until {
+                if idle && !queue_empty && k.out_buf.is_empty() && k.now >= k.stalled_until && !k.hung {
                     // nothing scheduled, tty writable, yet output is stuck in the queue
                     return false;
                 }
@@ -902,6 +919,7 @@ fn new_kernel(mut src: Src) -> Kernel {
         drain_chunk,
         drain_latency,
         stalled_until: 0,
+        hung: false,
         reply_latency,
         vt: VtState::Ground,
         modes: Modes { cursor_visible: true, ..Default::default() },
@@ -959,6 +977,7 @@ struct App {
     quit_seen: u64,
     failed: bool,
     blocked: bool,
+    blocked_excused: bool,
     /// steps counter at the time of the last Wake / Resize event delivery
     last_wake_event_step: u64,
     /// a poll with a finite timeout kept looping after its deadline and then delivered an event
@@ -1266,6 +1285,7 @@ fn session(ctx: &Ctx, kernel: &K) -> WorldResult {
         quit_seen: 0,
         failed: false,
         blocked: false,
+        blocked_excused: false,
         last_wake_event_step: 0,
         overstay: None,
         epoch: Epoch::default(),
@@ -1467,7 +1487,13 @@ fn session(ctx: &Ctx, kernel: &K) -> WorldResult {
                         let now = k.now;
                         k.schedule(delay, Ev::Stall(now + delay + len));
                     }
-                    3 => k.schedule(delay, Ev::Tick),
+                    3 => {
+                        if !ctx.avoids("terminal-stops-reading") && k.src.chance(1, 3) {
+                            k.schedule(delay, Ev::Hang);
+                        } else {
+                            k.schedule(delay, Ev::Tick);
+                        }
+                    }
                     4 => k.schedule(delay, Ev::Hangup),
                     _ => k.schedule(delay, Ev::Eio),
                 }
@@ -1509,6 +1535,9 @@ fn session(ctx: &Ctx, kernel: &K) -> WorldResult {
                     match res {
                         Err(()) => {
                             app.blocked = true;
+                            // waiting for ever for the answer of a terminal that has stopped
+                            // reading is what position() is documented to do: not judged
+                            app.blocked_excused = kk.hung;
                             kk.src.log(|| format!("t={}us app: position() blocked", now / US));
                         }
                         Ok(Err(Error::Quit)) => {
@@ -1654,7 +1683,7 @@ fn session(ctx: &Ctx, kernel: &K) -> WorldResult {
             return Err(violation("C17", "C17.unbounded-poll", "event-held-past-deadline", msg));
         }
     }
-    if app.blocked && prop == "C17" {
+    if app.blocked && !app.blocked_excused && prop == "C17" {
         // a poll blocked for ever: legitimate only if nothing was owed
         let k = kernel.borrow();
         let waker_byte = k.last_read_fds.iter().any(|fd| *fd != k.tty_fd && real_readable(*fd));
@@ -1668,10 +1697,13 @@ fn session(ctx: &Ctx, kernel: &K) -> WorldResult {
         let input_owed = k.typed.len() > app.keys.len() && !k.hup && !k.eio;
         let output_stuck = app.term.as_ref().map(|t| t.frames_pending() > 0).unwrap_or(false) && !k.hup && !k.eio && k.out_buf.len() < k.out_cap;
         if wake_owed || input_owed || output_stuck {
+            // the terminal stopped reading and output is still queued: the poll loop does not
+            // return while output is pending, so whatever it holds is starved behind it
+            let starved = k.hung && app.term.as_ref().map(|t| t.frames_pending() > 0).unwrap_or(false);
             return Err(violation(
                 "C17",
                 "C17.lost-wakeup",
-                "poll-blocked-with-event-owed",
+                if starved { "event-starved-behind-pending-output+terminal-stops-reading" } else { "poll-blocked-with-event-owed" },
                 format!(
                     "a poll with infinite timeout blocked for ever although {} (wake requests {}, Wake events {}, typed {}, key events {}, frames pending {:?})",
                     if wake_owed { "a wake request was not answered with a Wake event" } else if input_owed { "typed input was not delivered" } else { "output is queued and the tty is writable" },
@@ -1726,7 +1758,7 @@ fn session(ctx: &Ctx, kernel: &K) -> WorldResult {
         let eff_chunk = k.drain_chunk.min(k.out_cap).max(1) as u64;
         let per_byte = (k.drain_latency + 40 * US) / eff_chunk + 1;
         let needed = pending_bytes * per_byte + k.reply_latency + k.drain_latency;
-        (k.now >= k.stalled_until, k.person.da1 && needed < SEC / 4)
+        (k.now >= k.stalled_until && !k.hung, k.person.da1 && needed < SEC / 4)
     };
     let drop_clean_queue = app.term.as_ref().map(|t| t.frames_pending() == 0).unwrap_or(true);
     let term = app.term.take().unwrap();
